@@ -471,7 +471,10 @@ func (c *conn) Flush() error {
 	// pending data after this flush (short write or EAGAIN), we have to subscribe to
 	// it, otherwise the leftover data would never be sent.
 	if !c.loop.engine.opts.EdgeTriggeredIO && c.opened && !c.outboundBuffer.IsEmpty() {
-		return c.loop.poller.ModReadWrite(&c.pollAttachment, false)
+		if err := c.loop.poller.ModReadWrite(&c.pollAttachment, false); err != nil {
+			c.closeOnWriteError(err)
+			return err
+		}
 	}
 	return nil
 }
